@@ -4,6 +4,7 @@ package main
 
 import (
 	"bufio"
+	"context"
 	"encoding/json"
 	"fmt"
 	"os"
@@ -358,7 +359,14 @@ func runParent(id, tier string, only *Shard) int {
 			defer wg.Done()
 			defer func() { <-sem }()
 			js, _ := json.Marshal(sh)
-			cmd := exec.Command(exe, "worker", id, string(js))
+			// watchdog: a worker that runs absurdly long (quick 30 min, thorough 6 h) is killed; that is a harness error (exit 2), never a verdict
+			limit := 30 * time.Minute
+			if tier == "thorough" {
+				limit = 6 * time.Hour
+			}
+			ctx, cancel := context.WithTimeout(context.Background(), limit)
+			defer cancel()
+			cmd := exec.CommandContext(ctx, exe, "worker", id, string(js))
 			cmd.Env = append(os.Environ(), "GOMAXPROCS=2")
 			cmd.Stderr = os.Stderr
 			out, err := cmd.Output()
